@@ -127,6 +127,9 @@ struct Ctl {
     calls_after_withdraw: u64,
     era: &'static str,
     history: VecDeque<String>,
+    /// contents proposed earlier per proposer that are no longer pending (cancelled, confirmed,
+    /// dropped by a reset): replayed by the workload as hostile confirmations
+    stale: [Vec<Prop>; 2],
 }
 
 impl Ctl {
@@ -353,6 +356,22 @@ fn judge(c: &Ctl, call: &Call, roles: [bool; 3], clock: &ConsensusClock) -> Judg
 
 /// What a *successful* call does to the model (the call succeeded, whatever `judge` said).
 fn apply(c: &mut Ctl, call: &Call, roles: [bool; 3], clock: &ConsensusClock, pool: &[HRuleSet], pool_actual: &[RuleSet]) -> Effect {
+    // remember what stops being pending (workload material only, not used by `judge`)
+    let dropped: Vec<usize> = match call {
+        Call::QuickRec(..) | Call::Timed(_) | Call::QuickWd(_) => vec![P, R],
+        Call::CancelRec(p) => vec![*p],
+        _ => vec![],
+    };
+    for p in dropped {
+        if let Some(pe) = &c.rec[p] {
+            let prop = pe.prop.clone();
+            c.stale[p].retain(|x| *x != prop);
+            c.stale[p].push(prop);
+            if c.stale[p].len() > 3 {
+                c.stale[p].remove(0);
+            }
+        }
+    }
     match call {
         Call::InitRec(p, prop) => {
             let timed = if *p == R { c.delay.map(|d| Timed { minute0: clock.minute as i64, milli0: clock.milli, delay: d }) } else { None };
@@ -622,6 +641,7 @@ fn create_controller(ledger: &mut Ledger, shard: &mut Shard, rng: &mut Rng, env:
         calls_after_withdraw: 0,
         era: env.code_version(),
         history: VecDeque::new(),
+        stale: [vec![], vec![]],
     })
 }
 
@@ -646,7 +666,8 @@ fn pick_prop(rng: &mut Rng, env: &Env, prefer: Option<&Prop>, other: Option<&Pro
 }
 
 fn gen_call(rng: &mut Rng, env: &mut Env, c: &Ctl) -> Call {
-    let pend = |p: usize| c.rec[p].as_ref().map(|x| &x.prop);
+    let stale_pick = [c.stale[P].last(), c.stale[R].last()];
+    let pend = |p: usize| c.rec[p].as_ref().map(|x| &x.prop).or(stale_pick[p]);
     // weights; calls that can currently be effective are boosted
     let mut w: Vec<(u32, u32)> = vec![
         (0, 7),                                             // create_proof
@@ -654,11 +675,11 @@ fn gen_call(rng: &mut Rng, env: &mut Env, c: &Ctl) -> Call {
         (2, if c.rec[R].is_none() { 9 } else { 3 }),        // init rec R
         (3, if c.wd[P].is_none() { 4 } else { 1 }),         // init wd P
         (4, if c.wd[R].is_none() { 4 } else { 1 }),         // init wd R
-        (5, if c.rec[P].is_some() { 14 } else { 3 }),       // quick rec P
-        (6, if c.rec[R].is_some() { 14 } else { 3 }),       // quick rec R
+        (5, if c.rec[P].is_some() { 14 } else if !c.stale[P].is_empty() { 6 } else { 3 }), // quick rec P
+        (6, if c.rec[R].is_some() { 14 } else if !c.stale[R].is_empty() { 6 } else { 3 }), // quick rec R
         (7, if c.wd[P].is_some() { 8 } else { 2 }),         // quick wd P
         (8, if c.wd[R].is_some() { 8 } else { 2 }),         // quick wd R
-        (9, if c.rec[R].is_some() { 14 } else { 3 }),       // timed
+        (9, if c.rec[R].is_some() { 14 } else if !c.stale[R].is_empty() { 6 } else { 3 }), // timed
         (10, if c.rec[P].is_some() { 3 } else { 1 }),       // cancel rec P
         (11, if c.rec[R].is_some() { 3 } else { 1 }),       // cancel rec R
         (12, if c.wd[P].is_some() { 3 } else { 1 }),        // cancel wd P
